@@ -273,3 +273,46 @@ ASSUMPTIONS = [
     "Signer.init_kms_backend / _import_signer (importlib plug-in loading) yield the shipped basic_kms.SuitKMS / sign_script.Signer",
     "cbor2.loads(ENC(x)) == x (law A1) and ENC(loads(ENC x)) == ENC x (A2) for the envelope parts named by the contract's ghosts",
 ]
+
+
+
+# ------------------------------------------------------------------------------------------------ native replay adapters
+def _es_adapter(c, cex, tmp):
+    """Replay of a counter-model of _create_cose_es_signature: the real function is run with a stub key whose sign() returns the
+    DER encoding of the model's (r, s) - or, when the model gives none, of values with leading zero bytes - so that the width
+    clause is evaluated on the real code for exactly that signature value (the ECDSA primitive itself is the assumed part)."""
+    import importlib
+    from cryptography.hazmat.primitives.asymmetric.utils import encode_dss_signature
+    from pyvc import native
+    native.ensure_repo_on_path()
+    kms_mod = importlib.import_module("ncs.basic_kms")
+    size = 256
+    for name, t in c.params:
+        if name == "private_key" and hasattr(t, "fields"):
+            ks = t.fields.get("key_size")
+            size = getattr(ks, "value", size) if ks is not None else size
+    try:
+        size = int(cex["private_key"]["key_size"])
+    except Exception:  # noqa: BLE001
+        pass
+    W = (size + 7) // 8
+    results = []
+    for r, s_ in ((1, 1), (256 ** (W - 2) - 1, 256 ** (W - 1) + 5), (256 ** (W - 1) - 1, 256 ** (W - 3)), (2 ** (size - 1), 2 ** (size - 1) + 1)):
+        class _Key:
+            key_size = size
+
+            def sign(self, data, alg, _r=r, _s=s_):
+                return encode_dss_signature(_r, _s)
+        results.append((_Key(), r, s_))
+
+    def call(inp):
+        out = None
+        for key, r, s_ in results:
+            out = kms_mod.SuitKMS._create_cose_es_signature(object.__new__(kms_mod.SuitKMS), inp["input_data"], key)
+            if len(out) != 2 * W or out != r.to_bytes(W, "big") + s_.to_bytes(W, "big"):
+                return out  # the failing signature value
+        return out
+    return {"self": None, "input_data": b"message", "private_key": results[0][0], "W": W}, call, {"KEY_SIZE": lambda k: k.key_size}
+
+
+NATIVE = {"SuitKMS._create_cose_es_signature": _es_adapter}
